@@ -34,7 +34,8 @@ testers were told what the earlier ones had changed and were steered towards rar
 interactions of three features, rarely used entry points and flags, state kept between two calls), while
 the checks had only been extended for what had been delivered so far. With the exceptions listed at the end, every miss was a gap in the workload, not
 in the oracle: the oracle decided correctly as soon as the input was produced. All {len(rows)} are caught by the
-quick tier now (last column: the check that fires). Patches were re-based (and re-confirmed) where a
+quick tier now (last column: the check that fires; after round 9 the 193 changes of the eleven widened engines were run again
+with the final engines: all caught, `seeded/MATRIX.txt`). Patches were re-based (and re-confirmed) where a
 repair of gorm touched the same lines (C04-d, C11-b, C11-d, C11-e, C14-e, C17-b). Two round-3 changes
 repeat earlier ones (C07-f = C07-e, C14-f = C14-e), as do some of round 4 (C02-i = C02-g, C07-i = C07-e,
 C14-h = C14-e, C11-h = C08-c seen from C11, C09-i and C17-h close to C09-f and C17-e/f): independent
